@@ -307,11 +307,11 @@ int main(int argc, char **argv)
                         c.kind = "roll";
                         c.w = rng<uint32_t>(1, 48);
                         c.len = rng<uint64_t>(1, 3000);
-                        int bits = rng<int>(0, 10);
+                        int bits = weighted({ 1, 3, 3, 2 }) < 3 ? rng<int>(0, 3) : rng<int>(4, 10); // few mask bits: hits (also on the last byte of a call) are frequent
                         for (int i = 0; i < bits; i++) c.mask |= 1u << rng<int>(0, 31);
                         c.trigger = rng<uint32_t>(0, 0xffffffffu);
                         int k = rng<int>(0, 5);
-                        for (int i = 0; i < k; i++) c.maxlens.push_back(weighted({ 1, 3, 3 }) == 0 ? 0 : (coin() ? rng<uint32_t>(1, c.w + 3) : rng<uint32_t>(1, 700)));
+                        for (int i = 0; i < k; i++) c.maxlens.push_back(weighted({ 1, 3, 3 }) == 0 ? 0 : (coin() ? rng<uint32_t>(1, c.w + 9) : rng<uint32_t>(1, 700)));
                         bool allzero = true;
                         for (auto m : c.maxlens) allzero &= m == 0;
                         if (allzero && !c.maxlens.empty()) c.maxlens.push_back(c.w + 2);
